@@ -36,6 +36,21 @@ def form_text_budget(chk):
                       'seed': rng.randrange(10 ** 9)})
         metas.append((body, buf, 'budget', fs, {'buf': buf, 'n': n, 'size': size}))
         chk.count(1, ('budget', buf, n, size, len(body)))
+    # a file input left empty by the user agent arrives as a part with filename="" -- and whatever content a client chooses to
+    # put there; it is not an upload the application asked to keep on disk, and it is not text within the budget either
+    for _ in range(120 if thorough else 30):
+        buf = rng.choice([200, 300, 800])
+        big = rng.choice([buf + 1, 2 * buf, 10 * buf, 65536])
+        fs = [{'name': 't0', 'value': 'v' * rng.choice([0, 10, buf // 2])},
+              {'name': 'e1', 'filename': '', 'ctype': rng.choice([None, 'application/octet-stream', 'text/plain']), 'data': rng.choice([b'D', b'\xc3\xa9']) * (big // 2)}]
+        if rng.random() < 0.5:
+            fs.reverse()
+        fs = [{k: v for k, v in f.items() if v is not None} for f in fs]
+        body = mplib.encode_form(fs, b)
+        specs.append({'buf': buf, 'body': body, 'ctype': 'multipart/form-data; boundary=Bnd', 'what': 'forms+files', 'chunked': rng.random() < 0.3,
+                      'seed': rng.randrange(10 ** 9)})
+        metas.append((body, buf, 'raw', None, {'buf': buf, 'n': 1, 'size': big}))
+        chk.count(1, ('empty-filename', buf, big, len(body)))
     # urlencoded text
     for _ in range(400 if thorough else 80):
         buf = rng.choice([50, 300, 1000])
